@@ -323,6 +323,7 @@ func CheckC11(e *Env) int {
 	// nothing to construct: the injector's result is the parameter an interface binding
 	// designates, not another parameter that also implements the interface
 	legal = append(legal, passThroughArgsFamily()...)
+	legal = append(legal, bindSpellingCounterpartsFamily()...)
 	// how the two arguments of Bind are spelled does not matter, only their types do: two
 	// thirds of the programs (legal and illegal) use typed nil pointers instead of new(...)
 	respell := func(k int, p *Program) {
